@@ -2,7 +2,7 @@
 import io
 
 from .common import (Exec, Violation, weighted, random_mix, drive, sched_after_op, convergence_violation, loss_violation,
-                     ALL_FLAVOURS, REAL, STUBS, diff_trees, tree_str, strip_conflicted)
+                     ALL_FLAVOURS, REAL, STUBS, diff_trees, tree_str, strip_conflicted, case_reconcile)
 from sim.plan import propose
 
 ID = "C06"
@@ -246,7 +246,7 @@ def _verdict(ex, case):
     if t0 is None or t1 is None:
         return Violation("root-missing", "a sync root vanished")
     one_sided = len(set(it[1] for it in ex.plan if it[0] == "U")) <= 1
-    a, b = (t0, t1) if one_sided else (strip_conflicted(t0), strip_conflicted(t1))
+    a, b = (t0, t1) if one_sided else case_reconcile(ex, strip_conflicted(t0), strip_conflicted(t1))
     if a != b:
         toks, detail = diff_trees(a, b)
         paths = [s.split(" ")[0] for s in detail.split("; ")]
